@@ -30,10 +30,14 @@ def _ref_checksum(kind, data):
 
 class _Scratch:
     def __enter__(self):
+        import logging
+        logging.disable(logging.CRITICAL)   # (the library logs every refusal)
         self.d = Path(tempfile.mkdtemp(prefix="pure", dir=os.environ.get("PYVC_WORK")))
         return self.d
 
     def __exit__(self, *a):
+        import logging
+        logging.disable(logging.NOTSET)
         shutil.rmtree(self.d, ignore_errors=True)
 
 
@@ -202,3 +206,148 @@ ORACLES = {
     "cfdppy.filestore.NativeFilestore.truncate_file": FileDataOracle("truncate_file"),
     "cfdppy.handler.common.get_packet_destination": RoutingOracle(),
 }
+
+
+# ---------------------------------------------------------------- directory tree operations of the native filestore (C17)
+TREES = {
+    "flat": {"f": b"F", "g": b"GG", "d": None},
+    "nested": {"f": b"F", "d": None, "d/x": b"X", "e": None, "e/sub": None, "e/sub/y": b"Y"},
+    "dirs_only": {"d": None, "d/sub": None, "d/sub/z": b"Z", "h": None},
+}
+NAMES = ["f", "g", "d", "d/x", "d/sub", "e", "e/sub", "h", "missing", "missing/sub", "f/below"]
+
+
+def _kind(tree, p):
+    if p not in tree:
+        return "none"
+    return "dir" if tree[p] is None else "file"
+
+
+def _parent_ok(tree, p):
+    par = p.rsplit("/", 1)[0] if "/" in p else ""
+    return par == "" or _kind(tree, par) == "dir"
+
+
+def _children(tree, p):
+    return [k for k in tree if k.startswith(p + "/")]
+
+
+def _model(op, tree, a, b=None, recursive=False):
+    """reference semantics of the documented status codes; returns (status name, new tree)"""
+    t = dict(tree)
+    ka = _kind(t, a)
+    if op == "create_file":
+        if ka != "none" or not _parent_ok(t, a):
+            return "CREATE_NOT_ALLOWED", t
+        t[a] = b""
+        return "CREATE_SUCCESS", t
+    if op == "delete_file":
+        if ka == "none":
+            return "DELETE_FILE_DOES_NOT_EXIST", t
+        if ka == "dir":
+            return "DELETE_NOT_ALLOWED", t
+        del t[a]
+        return "DELETE_SUCCESS", t
+    if op == "create_directory":
+        if ka != "none" or not _parent_ok(t, a):
+            return "CREATE_DIR_CAN_NOT_BE_CREATED", t
+        t[a] = None
+        return "CREATE_DIR_SUCCESS", t
+    if op == "remove_directory":
+        if ka == "none":
+            return "REMOVE_DIR_DOES_NOT_EXIST", t
+        if ka == "file":
+            return "REMOVE_DIR_NOT_ALLOWED", t
+        kids = _children(t, a)
+        if kids and not recursive:
+            return "REMOVE_DIR_NOT_ALLOWED", t
+        for k in kids:
+            del t[k]
+        del t[a]
+        return "REMOVE_DIR_SUCCESS", t
+    kb = _kind(t, b)
+    if op == "rename_file":
+        if ka == "dir" or kb == "dir":
+            return "RENAME_NOT_PERFORMED", t
+        if ka == "none":
+            return "RENAME_OLD_FILE_DOES_NOT_EXIST", t
+        if kb != "none":
+            return "RENAME_NEW_FILE_DOES_EXIST", t
+        if not _parent_ok(t, b):
+            return "RENAME_NOT_PERFORMED", t
+        t[b] = t.pop(a)
+        return "RENAME_SUCCESS", t
+    if op == "replace_file":   # a = replaced, b = source
+        if ka == "dir" or kb == "dir":
+            return "REPLACE_NOT_ALLOWED", t
+        if ka == "none":
+            return "REPLACE_FILE_NAME_ONE_TO_BE_REPLACED_DOES_NOT_EXIST", t
+        if kb == "none":
+            return "REPLACE_FILE_NAME_TWO_REPLACE_SOURCE_NOT_EXIST", t
+        t[a] = t.pop(b)
+        return "REPLACE_SUCCESS", t
+    raise ValueError(op)
+
+
+def _build(root, tree):
+    for p in sorted(tree, key=lambda x: x.count("/")):
+        q = root / p
+        if tree[p] is None:
+            q.mkdir()
+        else:
+            q.write_bytes(tree[p])
+
+
+def _snapshot(root):
+    out = {}
+    for q in sorted(root.rglob("*")):
+        rel = str(q.relative_to(root))
+        out[rel] = None if q.is_dir() else q.read_bytes()
+    return out
+
+
+class TreeOracle(_Enum):
+    scope = "three small directory trees x every path argument of a fixed name set (existing file/dir, nested, missing parent) x both flags"
+
+    def __init__(self, op):
+        self.op = op
+
+    def cases(self):
+        for tn in TREES:
+            for a in NAMES:
+                if self.op in ("rename_file", "replace_file"):
+                    for b in NAMES:
+                        if a != b:
+                            yield {"op": self.op, "tree": tn, "a": a, "b": b}
+                elif self.op == "remove_directory":
+                    for rec in (False, True):
+                        yield {"op": self.op, "tree": tn, "a": a, "recursive": rec}
+                else:
+                    yield {"op": self.op, "tree": tn, "a": a}
+
+    def run(self, c):
+        from cfdppy.filestore import NativeFilestore
+        fs = NativeFilestore()
+        tree = TREES[c["tree"]]
+        if "f/below" in (c["a"], c.get("b")) and c["op"] in ("rename_file", "replace_file"):
+            return True, "skipped (path below a regular file: the OS answers NotADirectoryError, outside the documented cases)"
+        want_status, want_tree = _model(c["op"], tree, c["a"], c.get("b"), c.get("recursive", False))
+        with _Scratch() as d:
+            _build(d, tree)
+            try:
+                if c["op"] in ("rename_file", "replace_file"):
+                    got = getattr(fs, c["op"])(d / c["a"], d / c["b"])
+                elif c["op"] == "remove_directory":
+                    got = fs.remove_directory(d / c["a"], c["recursive"])
+                else:
+                    got = getattr(fs, c["op"])(d / c["a"])
+            except Exception as e:  # noqa: BLE001
+                return False, f"{c}: raised {type(e).__name__}: {e}"
+            have = _snapshot(d)
+        from spacepackets.cfdp import FilestoreResponseStatusCode
+        ok = got == FilestoreResponseStatusCode[want_status] and have == want_tree
+        return ok, (f"{c}: returned {got.name} (model {want_status}); tree {sorted(have)} (model {sorted(want_tree)})" if not ok else "ok")
+
+
+for _op in ("create_file", "delete_file", "create_directory", "remove_directory", "rename_file", "replace_file"):
+    ORACLES["cfdppy.filestore.NativeFilestore." + _op] = TreeOracle(_op)
